@@ -505,23 +505,45 @@ def _multi_entry(case, ctx, b, prog, opts):
 
 def occurrences(prog, t, direction):
     """Uses of each type name from the root: a named class body is expanded once, an unnamed
-    (type_name(None)) class is inlined, hence expanded, at every occurrence."""
+    (type_name(None) or generic specialisation) class is inlined, hence expanded - with its type arguments
+    substituted - at every occurrence."""
     counts, expanded = {}, set()
+
+    def bump(ref):
+        name = type_name_of(prog, ref)
+        if name is not None:
+            counts[name] = counts.get(name, 0) + 1
+        return name
 
     def visit(tt, depth=0):
         if depth > 30:
             return
-        for ref in tdcase.type_refs(tt, prog):
-            name = type_name_of(prog, ref)
+        k = tt["k"]
+        if k == "cls":
+            ref = ("cls", tt["i"])
+            name = bump(ref)
             if name is not None:
-                counts[name] = counts.get(name, 0) + 1
-            if ref[0] == "cls":
-                if name is not None:
-                    if ref in expanded:
-                        continue
-                    expanded.add(ref)
-                for f in tdcase._dir_fields(prog["classes"][ref[1]], direction):
-                    visit(f["t"], depth + 1)
+                if ref in expanded:
+                    return
+                expanded.add(ref)
+            cd = prog["classes"][tt["i"]]
+            if tt.get("args"):
+                cd = M.specialize(cd, tt["args"])
+            for f in tdcase._dir_fields(cd, direction):
+                visit(f["t"], depth + 1)
+            return
+        if k == "enum":
+            bump(("enum", tt["i"]))
+        elif k == "newtype":
+            bump(("newtype", tt["i"]))
+            visit(prog["newtypes"][tt["i"]]["of"], depth + 1)
+            return
+        for key in ("of", "key", "val"):
+            if isinstance(tt.get(key), dict):
+                visit(tt[key], depth + 1)
+        for key in ("alts", "items"):
+            for x in tt.get(key, []):
+                visit(x, depth + 1)
 
     visit(t)
     return counts
